@@ -6,6 +6,7 @@ package sx
 import (
 	"fmt"
 	"go/types"
+	"os"
 	"strings"
 
 	"gosx/smt"
@@ -59,6 +60,17 @@ func init() {
 		"vNote": func(fr *frame, a []value) value {
 			if s, ok := a[0].(string); ok {
 				fr.i.ps.observed = append(fr.i.ps.observed, s)
+			}
+			return nil
+		},
+		"vDebug": func(fr *frame, a []value) value {
+			for _, x := range a[0].([]value) {
+				ifc := x.(iface)
+				if s, ok := callMethod0(fr, ifc, "Error"); ok {
+					fmt.Fprintf(os.Stderr, "[vDebug] error: %s\n", toString(s))
+					continue
+				}
+				fmt.Fprintf(os.Stderr, "[vDebug] %s\n", toString(x))
 			}
 			return nil
 		},
